@@ -135,10 +135,17 @@ def main():
                 if not td:
                     import io
                     import contextlib
-                    for where in ("outside", "inside"):
+                    Bc = numpy.random.RandomState(7 * n + s).randn(n, n) + \
+                        1j * numpy.random.RandomState(11 * n + s).randn(n, n)
+                    Acx = qr.qm.SelfAdjointOperator(
+                        data=(Bc + Bc.conj().T) / 2)
+                    for where in ("outside", "inside", "inside-complex"):
                         with contextlib.redirect_stdout(io.StringIO()):
-                            if where == "inside":
-                                with qr.eigenbasis_of(ham):
+                            if where != "outside":
+                                # the eigenbasis of H (real orthogonal S) and
+                                # of a complex Hermitian operator (unitary S)
+                                with qr.eigenbasis_of(
+                                        ham if where == "inside" else Acx):
                                     A = qr.qm.Operator(data=A0.copy())
                                     r1 = Rop.apply(A)
                                     r2 = Rte.apply(A)
@@ -186,8 +193,10 @@ def main():
                 # Hamiltonian and of another operator), read there and after
                 # the context is left
                 if True:
-                    Bm = numpy.random.RandomState(n + s).randn(n, n)
-                    Aop = qr.qm.SelfAdjointOperator(data=(Bm + Bm.T) / 2)
+                    Bm = numpy.random.RandomState(n + s).randn(n, n) + \
+                        1j * numpy.random.RandomState(3 * n + s).randn(n, n)
+                    Aop = qr.qm.SelfAdjointOperator(
+                        data=(Bm + Bm.conj().T) / 2)
                     for cname, cop in (("H", ham), ("A", Aop)):
                         if theory == "Lindblad":
                             Rfresh = LindbladForm(ham, sbi, as_operators=True)
